@@ -23,6 +23,17 @@ import (
 	"github.com/cloudwego/thriftgo/parser"
 )
 
+// ctxHasEnum is typeHasEnum over the read/write contexts, which follow typedefs.
+func ctxHasEnum(c *golang.ReadWriteContext) bool {
+	if c == nil {
+		return false
+	}
+	if c.Type.Category == parser.Category_Enum {
+		return true
+	}
+	return ctxHasEnum(c.KeyCtx) || ctxHasEnum(c.ValCtx)
+}
+
 func typeHasEnum(t *parser.Type, visited map[*parser.Type]bool) bool {
 	if t == nil {
 		return false
@@ -67,6 +78,8 @@ func (g *FastGoBackend) genFastRead(w *codewriter, scope *golang.Scope, s *golan
 	for _, f := range ff {
 		if typeHasEnum(f.Type, nil) {
 			hasEnum = true
+		} else if rwctx, err := g.utils.MkRWCtx(scope, f); err == nil && ctxHasEnum(rwctx) {
+			hasEnum = true // an enum inside a typedef'd container
 		}
 		if f.Requiredness == parser.FieldType_Required {
 			isset.Add(f)
